@@ -312,8 +312,19 @@ func (r *Report) writeEvidence(verif, level string, wall float64, violations int
 	tb := keys(trusted)
 	tb = append(tb, "go/packages + go/types + go/ssa (x/tools v0.50.0) as the semantics-preserving front end", "govc VC generator (this repository, /verif/govc)",
 		"SMT solvers z3 4.8.12, z3 5.1.0 (z3-new), cvc5 1.0.x")
+	seq := "no goroutine interleavings: each function is verified as a sequential step; sync.Mutex critical sections are atomic"
+	var interf []string
+	for _, fr := range r.frs {
+		if fr.Contract != nil && len(fr.Contract.Shared) > 0 {
+			interf = append(interf, fr.Name)
+		}
+	}
+	if len(interf) > 0 {
+		sort.Strings(interf)
+		seq = "goroutine interleavings: " + strings.Join(interf, ", ") + " verified under interference by other threads (their `shared` locations are given arbitrary values before every call, constrained by the rely clauses listed in trusted_base; sequentially consistent atomics assumed); every other function is verified as a sequential step; sync.Mutex critical sections are atomic"
+	}
 	assumptions := []string{
-		"no goroutine interleavings: each function is verified as a sequential step; sync.Mutex critical sections are atomic",
+		seq,
 		"no out-of-memory, no stack overflow; garbage collector not modelled",
 		"floating point, reflection, unsafe, channels, I/O are not modelled (functions using them are not under contract or the calls are havoced)",
 		"termination is proved only for loops that carry a 'decreases' clause",
